@@ -135,6 +135,8 @@ def run(ctx):
     ctx.check(scope_aware, 'C04.scope', construct(hm), 'the hash of a reference depends on its scope (differently scoped references stay distinct dict keys)',
               'ConfigurableReference.__hash__ reads only %s: `{@a/f(): 1, @b/f(): 2}` collapses to one key (equality ignores the scope), so one of the '
               'references is silently dropped and never called under its scope' % sorted(reads), hm.loc(), instance='hash-sees-scope')
+  from .common import bindings_result_fresh
+  bindings_result_fresh(ctx, 'C04.isolate')
   init = cr.methods.get('initialize')
   star = [n for n in walk_local(init.node) if isinstance(n, ast.Assign) and isinstance(n.targets[0], ast.Tuple)
           and any(isinstance(e, ast.Starred) and u(e.value) == 'self._scopes' for e in n.targets[0].elts)
